@@ -177,6 +177,14 @@ class Recorder(object):
         if self.keep_obs:
             self.observations.append((st, ou))
         self.kinds[k] = self.kinds.get(k, 0) + 1
+        for _s, _d, m in sim.sent:
+            mk = 'msg:' + m['type'] + (':' + str(m.get('transmission')) if m.get('transmission') else '') + \
+                 (':snap' if 'serialized' in m else '')
+            self.kinds[mk] = self.kinds.get(mk, 0) + 1
+        if sim.exc:
+            self.kinds['exc:%d' % sim.exc] = self.kinds.get('exc:%d' % sim.exc, 0) + 1
+        for cbid, res, err in sim.fired:
+            self.kinds['cb:%s' % err] = self.kinds.get('cb:%s' % err, 0) + 1
         for fn in self.listeners:
             fn(self, ev, sim.step_nid)
         return sim.step_nid
@@ -194,6 +202,8 @@ class Scheduler(object):
         self.next_cid = 1
         self.fault_rate = fault_rate
         self.alive = set()
+        self.opts = {}
+        self.members = list(voters)
 
     def view(self, a, b):
         return a in self.sim.nodes and b in self.sim.tr(a).connected
@@ -275,9 +285,47 @@ class Scheduler(object):
                     self.connect(a, b)
                     self.connect(b, a)
 
+    def kill(self, n):
+        self.rec.do(('kill', n))
+        self.alive.discard(n)
+        for x in sorted(self.alive):
+            if self.view(x, n):
+                self.rec.do(('drop', x, n))
+
+    def restart(self, n):
+        o = None
+        oth = [x for x in self.members if x != n]
+        self.clock[n] = self.clock.get(n, 0) + 1
+        self.rec.do(('restart', n, oth, self.clock[n], self.rnd()))
+        self.alive.add(n)
+        for x in sorted(self.alive):
+            if x != n and x < RO_BASE and n < RO_BASE:
+                self.connect(n, x)
+                self.connect(x, n)
+
     def random_step(self):
         r = self.rng.random()
         live = sorted(self.alive)
+        opts = self.opts
+        if r < 0.03 and opts.get('big'):
+            B = self.rec.cfg['batch']
+            if B <= 1000:
+                return self.submit(self.rng.choice(live), size=B + self.rng.choice([-45, -30, -1, 0, 1, 40, B, 2 * B + 3]) if B > 50 else B + 5)
+        if r < 0.06 and opts.get('raises'):
+            return self.submit(self.rng.choice(live), raises=True)
+        if r < 0.08 and opts.get('budget'):
+            return self.tick(self.rng.choice(live), budget=self.rng.choice([0, 1, 2, 5]))
+        if r < 0.10 and opts.get('kill') and len(live) >= 2:
+            dead = [x for x in self.voters if x not in self.alive]
+            if dead and self.rng.random() < 0.6:
+                return self.restart(self.rng.choice(dead))
+            if len(dead) < 2:
+                return self.kill(self.rng.choice(live))
+        if r < 0.12 and opts.get('setver'):
+            self.next_cid += 1
+            return self.rec.do(('setver', self.rng.choice(live), self.rng.choice([0, 0, 1]), self.next_cid if self.rng.random() < 0.7 else 0))
+        if r < 0.15 and opts.get('admin') and self.rec.cfg.get('dyn'):
+            return self.admin_step()
         if r < 0.45:
             d = self.deliverable()
             if d:
@@ -309,12 +357,54 @@ class Scheduler(object):
         return self.rec.do(('compact', self.rng.choice(live)))
 
 
+def _calm_round(self):
+    """one round of mostly-valid behaviour: every live node ticks (heartbeat-scale gap, occasionally an
+    election-scale gap), everything in flight is delivered, a few commands are submitted"""
+    cfg = self.rec.cfg
+    live = sorted(self.alive)
+    self.rng.shuffle(live)
+    big = self.rng.random() < 0.15
+    for n in live:
+        if n not in self.alive:
+            continue
+        dt = cfg['period'] + 1 if not big else cfg['tmin'] + self.rng.randrange(cfg['tspan'] + 10)
+        self.tick(n, dt)
+        if self.rng.random() < 0.7:
+            self.deliver_all(40)
+    self.deliver_all(60)
+    for _ in range(self.rng.choice([0, 0, 1, 1, 2, 4])):
+        self.submit(self.rng.choice(sorted(self.alive)), cb=self.rng.random() < 0.8)
+
+
+Scheduler.calm_round = _calm_round
+
+
+def _admin_step(self):
+    # operator: add a fresh node or remove one; the request can be issued on any node
+    live = sorted(self.alive)
+    n = self.rng.choice(live)
+    self.next_cid += 1
+    cbid = self.next_cid if self.rng.random() < 0.8 else 0
+    pool = [x for x in self.pool if x not in self.members]
+    if pool and (len(self.members) <= 2 or self.rng.random() < 0.5) and len(self.members) < 5:
+        x = self.rng.choice(pool)
+        self.rec.do(('admin', n, True, x, cbid))
+        self.pending_add.append(x)
+    elif len(self.members) > 1:
+        x = self.rng.choice(self.members)
+        self.rec.do(('admin', n, False, x, cbid))
+    return None
+
+
+Scheduler.admin_step = _admin_step
+
+
 def default_cfg(rng, voters):
     return dict(voters=list(voters), ro=[], period=10, tmin=40, tspan=128,
                 fallback=rng.choice([15, 50, 300, 3000]),
                 batch=rng.choice([60, 100, 200, 1000, 65536]), chunk=rng.choice([1, 7, 64, 200, 65536]),
                 use_batch=rng.random() < 0.8, dyn=False, wait_leader=rng.random() < 0.8,
-                queue=rng.choice([0, 2, 1000, 1000]),
+                queue=rng.choice([0, 2, 1000, 1000, 1000, 1000]),
                 min_entries=rng.choice([2, 5, 10 ** 9, 10 ** 9]), min_time=rng.choice([20, 10 ** 9]))
 
 
@@ -327,7 +417,18 @@ def random_trace(seed, n_events=200, workdir=None, keep_obs=False, cfg=None, lis
     rec.keep_obs = keep_obs
     rec.listeners = list(listeners)
     sch = Scheduler(rec, rng, voters)
+    sch.opts = dict(big=rng.random() < 0.4, raises=rng.random() < 0.2, budget=rng.random() < 0.3,
+                    kill=rng.random() < 0.3, setver=rng.random() < 0.2)
+    rec.opts = sch.opts
     sch.boot()
     while len(rec.mevents) < n_events:
-        sch.random_step()
+        mode = rng.random()
+        if mode < 0.5:
+            for _ in range(rng.randrange(1, 8)):
+                sch.calm_round()
+                if len(rec.mevents) >= n_events:
+                    break
+        else:
+            for _ in range(rng.randrange(1, 25)):
+                sch.random_step()
     return rec
